@@ -126,6 +126,20 @@ def _events(args):
                 io = E.outcome(lambda: (lambda n: (E.loc(n.chromosome_location), list(str(n.get_spliced_sequence()))))(
                     feat.incorporate_variants(obj)))
                 ev.append(["inc", kind, list(R), Vj, lj, use_coll, io])
+                if kind == "transcript" and rnd.random() < 0.5:
+                    # the same through a GENE around that transcript, built with or WITHOUT repeating the parent
+                    from inscripta.biocantor.gene.gene import GeneInterval
+
+                    try:
+                        tg = mk_tx(blocks, st, None, None, parent=par)
+                        gene = GeneInterval([tg], gene_id="g") if rnd.random() < 0.6 else \
+                            GeneInterval([tg], gene_id="g", parent_or_seq_chunk_parent=par)
+                    except Exception:
+                        continue
+                    io = E.outcome(lambda: (lambda n: (E.loc(n.transcripts[0].chromosome_location),
+                                                       list(str(n.transcripts[0].get_spliced_sequence()))))(
+                        gene.incorporate_variants(obj)))
+                    ev.append(["inc", "gene", list(R), Vj, lj, use_coll, io])
             # a CODING transcript: after incorporating variants its CDS is the edited image of the reference CDS
             n_tx = sum(b[1] - b[0] for b in blocks)
             if n_tx >= 4:
